@@ -86,6 +86,27 @@ def _is_unit_family(s: dict) -> bool:
     return all(abs(x) <= 1 for r in s["J"] for x in r)
 
 
+def known_finding_probe(ctx: Ctx) -> None:
+    """The two concrete inputs of the recorded finding C04:CAGrad:at_or_near_stationarity_badly_scaled are
+    evaluated on every run with the same predicate as the family (so the KNOWN-FINDING line is printed
+    whatever the seed, and disappears - nothing else changes - the day the defect is repaired)."""
+    import math
+    import torch
+    from torchjd.aggregation import CAGrad
+    for J in ([[-1.0, 2.0 ** -10, 0.0], [0.0, 0.0, 2.0 ** -10], [1.0, 0.0, -1.0]],
+              [[0.0, -1.0], [-(2.0 ** -14), -(2.0 ** -7)], [0.0, 2.0 ** -7]]):
+        Jt = torch.tensor(J, dtype=torch.float64)
+        A = CAGrad(c=1.0)(Jt)
+        s = float(torch.linalg.svdvals(Jt)[0])
+        prod = (Jt @ A).tolist()
+        allow = 1e-6 * s * float(A.norm()) + 1e-11 * s * s
+        ctx.evaluations += 1
+        if any(not (p >= -allow) for p in prod):
+            ctx.violation("C04:CAGrad:at_or_near_stationarity_badly_scaled",
+                          f"CAGrad(c=1) on {J}: J.A(J) = {prod} has an entry below -1e-6 s|A(J)| = {-allow:.3e}",
+                          {"kind": "known_probe", "J": J})
+
+
 def run(ctx: Ctx, replay: str | None) -> None:
     torch.manual_seed(ctx.seed)
     rng = random.Random(ctx.seed)
@@ -118,6 +139,7 @@ def run(ctx: Ctx, replay: str | None) -> None:
             validate_exact(ctx, [rerun_episode(p["episode"])], PID)
         return
 
+    known_finding_probe(ctx)
     from concurrent.futures import ThreadPoolExecutor
     bs_insts = BS.random_instances(random.Random(ctx.seed * 7919 + 4), 80 if ctx.tier == "quick" else 600)
     with ThreadPoolExecutor(1) as ex:
